@@ -4,7 +4,7 @@
    statistics part of Dataset.materialize; it is tied to /repo by the
    correspondence run of ./check C03.  Values of category columns are integer
    ids, NaN is None, std is kept squared (population variance). *)
-From Coq Require Import List Arith ZArith QArith Bool Permutation Sorting.Sorted.
+From Coq Require Import List Arith ZArith QArith Bool Permutation Sorting.Sorted String.
 From PF Require Import Lib.ListX Lib.QStats Gen.Tables Model.Stats Proofs.StatsProofs.
 Import ListNotations.
 
@@ -191,6 +191,27 @@ Theorem stats_per_stype_table : forall s, stats_for_stype s = model_stats_for_st
 Proof. exact stats_table_matches_model. Qed.
 Print Assumptions stats_per_stype_table.
 
+(* ---- the statistics are those of the frame that is materialized, whatever happened to the Dataset
+   object before.  `_col_stats` is ONE dict: it keeps the entries written by an attempt that raised
+   midway and it is shared with column-selected copies (copy.copy).  For every compute function, every
+   initial store (arbitrary stale entries) and every history of materialize attempts by not yet
+   materialized dataset objects sharing the store (each on the frame it holds at that moment): if the
+   LAST attempt completes, every column it declares carries the statistics of the frame it ran on.
+   (`materialize` on an already materialized dataset returns early by design and is not an attempt.) *)
+Theorem no_stale_statistics_after_history :
+  forall (Frame Stat : Type) (compute : String.string -> Frame -> option Stat) ops cols df s0 s oks,
+    run_history compute (ops ++ [(cols, df)]) s0 = (s, oks) -> last oks false = true ->
+    forall c, In c cols -> slookup s c = compute c df /\ compute c df <> None.
+Proof. exact @history_no_stale. Qed.
+Print Assumptions no_stale_statistics_after_history.
+
+Theorem materialize_overwrites_every_declared_column :
+  forall (Frame Stat : Type) (compute : String.string -> Frame -> option Stat) cols df s s' c,
+    fill compute cols df s = (s', true) -> In c cols ->
+    slookup s' c = compute c df /\ compute c df <> None.
+Proof. exact @fill_no_stale. Qed.
+Print Assumptions materialize_overwrites_every_declared_column.
+
 (* ---- non-vacuity: concrete columns on which the hypotheses hold *)
 Example ex_numerical :
   compute_num [NFin (3 # 2); NPosInf; NNaN; NFin (-1 # 4); NFin (5 # 1); NNegInf; NFin (3 # 2)]
@@ -220,3 +241,14 @@ Example ex_timestamps :
   = Some {| t_year_range := [1969; 1970]; t_newest := [1970; 0; 1; 4; 0; 0; 0];
             t_oldest := [1969; 11; 30; 2; 23; 59; 55]; t_median := [1970; 0; 0; 3; 0; 5; 0] |}%Z.
 Proof. vm_compute. reflexivity. Qed.
+
+Example ex_history :
+  (* frame versions 0 (dirty) and 1 (repaired); column "b" raises on version 0 after "a" was written;
+     a column-selected copy materialized ["a"] on version 0 before: the store really holds stale entries
+     after the failed attempt, and none after the completed one *)
+  let compute := fun (c : String.string) (v : nat) =>
+                   if (String.eqb c "b" && Nat.eqb v 0)%bool then None else Some (c, v) in
+  run_history compute [(["a"], 0%nat); (["a"; "b"; "c"], 0%nat)] [] = ([("a", ("a", 0%nat))], [true; false]) /\
+  run_history compute [(["a"], 0%nat); (["a"; "b"; "c"], 0%nat); (["a"; "b"; "c"], 1%nat)] []
+  = ([("a", ("a", 1%nat)); ("b", ("b", 1%nat)); ("c", ("c", 1%nat))], [true; false; true]).
+Proof. vm_compute. split; reflexivity. Qed.
